@@ -250,6 +250,39 @@ def run(chk, replay=None):
                               'got': repr(r_) if isinstance(r_, Raised) else [int(x) for x in r_.test_distribution]})
                 break
         chk.nontrivial('reeval|%s' % cats_abs)
+    # statistics that are distinct but closer than 1e-9: a forecast whose cells hold 100 000, 99 999 and 100 001 synthetic events
+    # (100000^2 and 99999 * 100001 differ by one part in 1e10), a synthetic catalog with two events in the first cell, one with an event
+    # in each of the other two, and the observation like the former.  The reported quantiles must be the empirical probabilities of
+    # the reported distribution at the reported statistic - counted exactly, a near tie is not a tie
+    from csep.core.forecasts import CatalogForecast
+    bulk = numpy.zeros(299995, dtype=CSEPCatalog.dtype)
+    bulk['id'] = b'k'
+    bulk['origin_time'] = 10 ** 12 + numpy.arange(len(bulk))
+    bulk['latitude'], bulk['depth'], bulk['magnitude'] = 0.25, 10.0, 4.2
+    bulk['longitude'] = numpy.repeat([0.25, 1.25, 2.25], [100000 - 3, 99999 - 1, 100001 - 1])
+    def small(cells_):
+        return CSEPCatalog(data=[('s%d' % i, 10 ** 12 + i, 0.25, 0.25 + c_, 10.0, 4.2) for i, c_ in enumerate(cells_)])
+    for tname, fn in (('s', ce.spatial_test), ('pl', ce.pseudolikelihood_test)):
+        fcst = CatalogForecast(catalogs=[CSEPCatalog(data=bulk.copy(), catalog_id=0), small([0, 0]), small([1, 2]), small([0])],
+                               region=world.make_region(), name='near-tie', n_cat=4)
+        obs = CSEPCatalog(data=[('o%d' % i, 10 ** 12 + 5 + i, 0.25, 0.25, 10.0, 4.3) for i in range(2)], region=world.make_region(), name='obs')
+        with contextlib.redirect_stdout(io.StringIO()):
+            r = guarded_timeout(120, fn, fcst, obs, verbose=False)
+        chk.count()
+        if isinstance(r, Raised) or r is None:
+            chk.violation('%s:near-tie:raised' % tname, {'err': repr(r)})
+            continue
+        dist = [float(x) for x in r.test_distribution]
+        stat = float(r.observed_statistic)
+        want = (sum(1 for x in dist if x >= stat) / len(dist), sum(1 for x in dist if x <= stat) / len(dist))
+        gaps = sorted(abs(x - stat) for x in dist if x != stat)
+        if not gaps or gaps[0] > 1e-9:
+            raise MachineryError('the near-tie forecast has no statistic within 1e-9 of the observed one (%r)' % (gaps[:2],))
+        got = tuple(float(x) for x in r.quantile)
+        if got != want:
+            chk.violation('%s:quantile differs from the empirical probabilities of the reported distribution:near-tie' % tname,
+                          {'test': tname, 'observed_statistic': stat, 'distribution': dist, 'quantile': got, 'expected': want, 'smallest_gap': gaps[0]})
+        chk.nontrivial('near-tie|%s' % tname)
     # random larger forecasts
     for t in range(6 if quick else 60):
         J = rng.choice([5, 30, 200])
